@@ -79,14 +79,18 @@ def complete(futs: List[Any], chain: Tuple[str, ...], level: int, errors: Dict[i
         futs[level].cancel()
 
 
-def judge(chain: Tuple[str, ...], got: Tuple[Any, ...], errors: Dict[int, BaseException]) -> Optional[str]:
+def judge(chain: Tuple[str, ...], got: Tuple[Any, ...], errors: Dict[int, BaseException], carried_ok: bool = False) -> Optional[str]:
     outcome, level = expected(chain)
     if outcome == 'value':
         return None if got == ('value', f'v{level}') else f'want value v{level}, got {got!r}'
     if outcome == 'exc':
         return None if got[0] == 'exc' and got[1] is errors.get(level) else f'want the exception of level {level}, got {got!r}'
-    if got == ('cancelled',) or (got[0] == 'exc' and isinstance(got[1], (asyncio.CancelledError, kiwipy.CancelledError))):
-        return None  # (the cancelled state, or the cancellation carried as the adapter's exception)
+    if got == ('cancelled',):
+        return None
+    if carried_ok and got[0] == 'exc' and isinstance(got[1], (asyncio.CancelledError, kiwipy.CancelledError)):
+        # for the mirror and the unwrapping the statement names the cancellation as an outcome of its own; for a scheduled
+        # coroutine ("result or exception") and the internal rpc helper a cancellation carried as the exception is as good
+        return None
     return f'want cancelled, got {got!r}'
 
 
@@ -203,7 +207,7 @@ class LoopProp:
                             complete(futs, chain, lv, errors)
                     res.states.add((tuple(done_order), loop.ready_count(), adapter.done()))
                 got = status_of(adapter)
-                why = judge(chain, got, errors)
+                why = judge(chain, got, errors, carried_ok=kind in ('task', 'rpc'))
                 feats = {'adapter': kind, 'final': chain[-1], 'depth': len(chain)}
                 if why:
                     res.violations.append({'clause': f'{kind}:wrong-outcome', 'features': feats, 'detail': why})
